@@ -599,6 +599,35 @@ func ruleOptionalDeref(fileScope func(string) bool, ruleID string, min int) func
 				if nonNil[k] {
 					okFact = "tested non-nil on every path here"
 				}
+				if okFact == "" && se.Sel.Name == "Dimensions" && !d.Name.IsExported() && d.Recv == nil {
+					// a helper that is only ever called from inside the `FunctionDimensionIndex` branch
+					me, _ := info.Defs[d.Name].(*types.Func)
+					sites, under := 0, 0
+					for _, od := range c.AllDecls() {
+						if od.Body == nil || c.DeclPkg(od) == nil {
+							continue
+						}
+						for _, r := range c.Refs(od) {
+							if me != nil && r.Origin() == me {
+								sites += 100
+							}
+						}
+						oinfo := c.DeclPkg(od).TypesInfo
+						for _, cs := range c.Calls(od) {
+							if cs.Callee == nil || me == nil || cs.Callee.Origin() != me {
+								continue
+							}
+							sites++
+							fake := &ast.SelectorExpr{X: cs.Call, Sel: ast.NewIdent("Dimensions")}
+							if validatedDimensionsAt(oinfo, od.Body, fake, cs.Call) {
+								under++
+							}
+						}
+					}
+					if sites > 0 && sites == under {
+						okFact = "validated: the helper is only called while a dimensionIndex() call is handled, and dimensionIndex() is rejected for arrays without named dimensions"
+					}
+				}
 				if okFact == "" && validatedDimensions(info, d.Body, se) {
 					okFact = "validated: dimensionIndex() is rejected for arrays without named dimensions (resolveDimensionIndexFunctionCall), so Dimensions is set wherever a generator handles that call"
 				}
@@ -1228,7 +1257,12 @@ func (na *nilAnalyzer) callerParamFact(info *types.Info, d *ast.FuncDecl, id *as
 // function name of a call in a computed field). resolveDimensionIndexFunctionCall rejects dimensionIndex() on an
 // array without named dimensions — Dimensions == nil included — so the generators only ever see it with Dimensions set.
 func validatedDimensions(info *types.Info, root ast.Node, e ast.Expr) bool {
-	se, ok := ast.Unparen(e).(*ast.SelectorExpr)
+	return validatedDimensionsAt(info, root, e, e)
+}
+
+// validatedDimensionsAt: as validatedDimensions, for the selector e with the position taken from `at`.
+func validatedDimensionsAt(info *types.Info, root ast.Node, sel ast.Expr, e ast.Node) bool {
+	se, ok := ast.Unparen(sel).(*ast.SelectorExpr)
 	if !ok || se.Sel.Name != "Dimensions" {
 		return false
 	}
@@ -1247,11 +1281,37 @@ func validatedDimensions(info *types.Info, root ast.Node, e ast.Expr) bool {
 		k, ok := info.Uses[id].(*types.Const)
 		return ok && k.Name() == "FunctionDimensionIndex"
 	}
+	var disjuncts func(x ast.Expr) []ast.Expr
+	disjuncts = func(x ast.Expr) []ast.Expr {
+		if be, ok := ast.Unparen(x).(*ast.BinaryExpr); ok && be.Op == token.LOR {
+			return append(disjuncts(be.X), disjuncts(be.Y)...)
+		}
+		return []ast.Expr{x}
+	}
 	ast.Inspect(root, func(n ast.Node) bool {
+		// `if !isCall || call.FunctionName != dsl.FunctionDimensionIndex { ...; return }` in front, in an enclosing block
+		if blk, isBlk := n.(*ast.BlockStmt); isBlk && blk.Pos() <= e.Pos() && e.End() <= blk.End() {
+			for _, st := range blk.List {
+				if st.Pos() <= e.Pos() && e.End() <= st.End() {
+					break
+				}
+				ifs, isIf := st.(*ast.IfStmt)
+				if !isIf || ifs.Else != nil || len(ifs.Body.List) == 0 || !stmtLeaves(ifs.Body.List[len(ifs.Body.List)-1]) {
+					continue
+				}
+				for _, part := range disjuncts(ifs.Cond) {
+					if be, isB := ast.Unparen(part).(*ast.BinaryExpr); isB && be.Op == token.NEQ && (isConst(be.X) || isConst(be.Y)) {
+						found = true
+					}
+				}
+			}
+		}
 		// `if call.FunctionName == dsl.FunctionDimensionIndex { ... }`
 		if ifs, isIf := n.(*ast.IfStmt); isIf && ifs.Body.Pos() <= e.Pos() && e.End() <= ifs.Body.End() {
-			if be, isB := ast.Unparen(ifs.Cond).(*ast.BinaryExpr); isB && be.Op == token.EQL && (isConst(be.X) || isConst(be.Y)) {
-				found = true
+			for _, part := range conjuncts(ifs.Cond) {
+				if be, isB := ast.Unparen(part).(*ast.BinaryExpr); isB && be.Op == token.EQL && (isConst(be.X) || isConst(be.Y)) {
+					found = true
+				}
 			}
 		}
 		cc, ok := n.(*ast.CaseClause)
